@@ -39,7 +39,7 @@ structure Family (A : Type) where
   hash : A → String
   parse : List Nat → String → Option A     -- text, reference field
   fmt : A → String → List Nat
-  slash : A → Nat → Slash A
+  slash : A → Int → Slash A
   showMask : A → String
 
 def fam4 : Family Nat where
@@ -53,7 +53,7 @@ def fam4 : Family Nat where
   hash := fun a => toString (V4.hash a)
   parse := fun s _ => V4.parse (s.takeWhile (· != 0))
   fmt := fun a _ => V4.fmt a
-  slash := slash4
+  slash := slash4I
   showMask := fun m => toHexN (v4Out m)
 
 def famBuf (k : Nat) (hashed : Bool) (libcText : Bool) : Family Buf where
@@ -67,7 +67,7 @@ def famBuf (k : Nat) (hashed : Bool) (libcText : Bool) : Family Buf where
   hash := fun a => if hashed then toString (B.hash6 a) else "-"
   parse := fun s ref => if libcText then (if ref.length == 2 * k then hexN ref else none) else B.parseHw k s
   fmt := fun a ref => if libcText then (hexN ref).getD [] else B.fmtHw a
-  slash := slashBuf k
+  slash := slashBufI k
   showMask := fun m => if libcText then toHexN m else "-"
 
 def showIter {A} (f : Family A) (r : Range A) (cap : Nat) : String :=
@@ -109,7 +109,7 @@ def runModel {A} (f : Family A) (w : List String) : String :=
       let back := match f.parse s (toHexN (f.enc a)) with | some b => hx b | none => "throw:invalid_address"
       s!"s={toHexN s} back={back}"
     | none => "bad-op"
-  | "pfx" :: _ :: a :: p :: rest => match addr f a, p.toNat? with
+  | "pfx" :: _ :: a :: p :: rest => match addr f a, p.toInt? with
     | some a, some p => match f.slash a p with
       | .logicError => "throw logic_error"
       | .invalidRange => "throw invalid_range"
@@ -249,9 +249,11 @@ def specLine (op out : String) : String :=
           firstBad [(want ow "back" a).map (·.replace "violates back" "violates text-roundtrip"),
                     match s with | some s => (want ow "s" s).map (·.replace "violates s" "violates text-form") | none => none]
         | none => "unspecified"
-      | "pfx", a :: p :: rest => match num a, p.toNat? with
-        | some a, some p =>
-          if p > 8 * n then (if out == "throw logic_error" then "ok" else "violates prefix-too-long expected=throw logic_error")
+      | "pfx", a :: p :: rest => match num a, p.toInt? with
+        | some a, some pi =>
+          let p := pi.toNat
+          if pi < 0 then (if out == "throw logic_error" then "ok" else "violates prefix-negative expected=throw logic_error")
+          else if p > 8 * n then (if out == "throw logic_error" then "ok" else "violates prefix-too-long expected=throw logic_error")
           else if isThrow out then s!"violates prefix-range-throws {out}" else
           let first := prefixFirst n a p
           let last := prefixLast n a p
